@@ -349,4 +349,58 @@ def unsliceInc (F : Frame) (ub : List Int) : Res (List (Int × TS)) := do
 def unslice (F : Frame) (ub : List Int) : Res (List (Int × TS)) :=
   if nonDecreasing ub then unsliceInc F ub else (unsliceInc F ub.reverse).map List.reverse
 
+/-! ### bound lists with an unbounded end: `None` as the last upper (first lower) bound ("a missing bound being unbounded") -/
+
+/-- `_is_non_decreasing` (lines 30-60) on a list that may hold `None`: a `None` at the end and one at the start are set aside,
+    a `None` left among two or more values makes `sorted` raise `TypeError`.  (A list that is neither non-decreasing nor
+    non-increasing raises `ValueError` in the code; as for `nonDecreasing` the model reads it as decreasing - outside the quantifier.) -/
+def directionO (vs : List (Option Int)) : Res Bool :=
+  if vs.length < 2 then .ok true
+  else
+    let v := if vs.getLast? == some Option.none then vs.dropLast else vs
+    let v := if v.head? == some Option.none then v.drop 1 else v
+    if decide (2 ≤ v.length) && v.any Option.isNone then .error .type
+    else .ok (nonDecreasing (v.filterMap id))
+
+/-- lines 1675-1694 for bound lists that may hold `None` (same three spellings as `normalise`) -/
+def normaliseO {α} (dfs : List α) (lb ub : Option (List (Option Int))) :
+    Res (List α × List (Option Int) × List (Option Int)) :=
+  match lb, ub with
+  | some lb, Option.none => do
+      let inc ← directionO lb
+      let (lb, dfs) := if inc then (lb, dfs) else (lb.reverse, dfs.reverse)
+      pure (dfs, lb, lb.drop 1 ++ [Option.none])
+  | Option.none, some ub => do
+      let inc ← directionO ub
+      let (ub, dfs) := if inc then (ub, dfs) else (ub.reverse, dfs.reverse)
+      pure (dfs, Option.none :: ub.dropLast, ub)
+  | some lb, some ub => do
+      let ui ← directionO ub
+      let li ← directionO lb
+      if ui != li then .error .value
+      else if !li then pure (dfs.reverse, lb.reverse, ub.reverse)
+      else pure (dfs, lb, ub)
+  | Option.none, Option.none => .error .type
+
+/-- `df_slice(dfs, lb, ub, openclose, n)` for a list of series and bound lists that may hold `None`; on lists of dates
+    it is `stitch` (`Props.C13.stitchO_dates`) -/
+def stitchO (dfs : List TS) (lb ub : Option (List (Option Int))) (oc : Option (List Char)) (n : Nat) : Res (Option Frame) := do
+  let (dfs, lbs, ubs) ← normaliseO dfs lb ub
+  let dlu ← zipper3 (framesOf dfs n) lbs ubs
+  let res ← cutAll dlu oc
+  pure (assemble res)
+
+/-- what the body of `df_unslice` hands to the bounds (read in increasing order): column `j` of slice `i` to bound `i+j` -/
+def handedO (F : Frame) (ub : List (Option Int)) : Res (List (Option Int × TS)) := do
+  let lbs := Option.none :: ub.dropLast
+  let slices ← (lbs.zip ub).mapM fun (l, u) => sliceWrap F.rows (optDate l) (optDate u) (some ['(', ']'])
+  pure (slices.zipIdx.flatMap fun (ts, i) => (((ub.drop i).take F.width).zipIdx).map fun (u, j) => (u, column j ts))
+
+/-- `df_unslice(df, ub)` for a bound list that may end in `None` (repo fix C13-U2: the pairs are handed out in the order of
+    the bounds GIVEN, `dict` keeps the first of equal keys; before it `listby` filed the unbounded series first) -/
+def unsliceO (F : Frame) (ub : List (Option Int)) : Res (List (Option Int × TS)) := do
+  let inc ← directionO ub
+  let rs ← handedO F (if inc then ub else ub.reverse)
+  pure (ub.eraseDups.map fun u => (u, nona ((rs.filter (·.1 == u)).flatMap (·.2))))
+
 end Pyg.Slice
